@@ -111,7 +111,7 @@ def hang_devs(st, outcome, n):
 
 
 # =============================================================================== C10
-def scen_c10(gaps, dur, mbs, mcb, bt=10, mutate=None):
+def scen_c10(gaps, dur, mbs, mcb, bt=10, mutate=None, tail=0):
     """distinct keys, every call succeeds. mutate: (at, new_mbs) reassigns max_batch_size at that instant."""
     global LAST_INFO
     st = St()
@@ -125,10 +125,15 @@ def scen_c10(gaps, dur, mbs, mcb, bt=10, mutate=None):
         st.running += 1
         st.maxrun = max(st.maxrun, st.running)
         await aio.sleep(dur)
-        st.running -= 1
-        rec['end'] = loop.time()
+        if tail == 0:
+            st.running -= 1
+            rec['end'] = loop.time()
         for k, v in batch:
             yield k, v
+        if tail > 0:     # the execution is still in progress after its last yield (commit / clean-up work)
+            await aio.sleep(tail)
+            st.running -= 1
+            rec['end'] = loop.time()
 
     def mk():
         b = M.AsyncBackgroundBatcher(f, max_batch_size=mbs, max_concurrent_batches=mcb, batch_timeout=bt)
@@ -217,12 +222,11 @@ class BatchErr(ValueError):
     pass
 
 
-def scen_c11(gaps, kidx, rt, dur, failmask, explicit_keys=True, bt=2, item_dur=0):
+def scen_c11(gaps, kidx, rt, dur, failmask, explicit_keys=True, bt=2, item_dur=0, names=('a', 'b')):
     """calls over keys a/b; outcome value or exception per key; retention window rt; no cancellation."""
     global LAST_INFO
     st = St()
     n = len(gaps)
-    names = ('a', 'b')
 
     async def f(batch):
         batch = list(batch)
@@ -233,7 +237,7 @@ def scen_c11(gaps, kidx, rt, dur, failmask, explicit_keys=True, bt=2, item_dur=0
         for k, v in batch:
             if item_dur > 0:
                 await aio.sleep(item_dur)
-            ki = 0 if k in ('a', '0') else 1
+            ki = 0 if k in (names[0], '0') else 1
             if (failmask >> ki) & 1:
                 yield k, BatchErr(bid)
             else:
@@ -800,6 +804,10 @@ def c10_cells(tier):
                             pre=['len(gaps) == 3 and gaps[0] == 0 and all(0 <= g <= 12 for g in gaps)', pre],
                             body='H.scen_c10(gaps, dur, 2, 2, 10, (at, %d))' % new, tier=q if isq else 'thorough',
                             timeout=300 if isq else 1200, family='c10'))
+    # executions that keep working after their last yield still count against max_concurrent_batches
+    out.append(Cell(name='c10_tail_n3_mbs1_mcb1', sig='gaps: List[int], dur: int, tail: int',
+                    pre=['len(gaps) == 3 and gaps[0] == 0 and all(0 <= g <= 6 for g in gaps) and 0 <= dur <= 3 and 1 <= tail <= 5'],
+                    body='H.scen_c10(gaps, dur, 1, 1, 10, None, tail)', tier=q, timeout=400, family='c10', weight=3))
     # limit lowered from 3 to 1 while a batch is being collected
     for sfx, pre in product_pre([parts('at', [(0, 4), (5, 9)])]):
         out.append(Cell(name='c10_mutate_n3_from3_new1_p%s' % sfx, sig='gaps: List[int], dur: int, at: int',
